@@ -95,6 +95,8 @@ Inductive fault :=
 | FNone
 | FBreak (recv_side at_start : bool)   (* one endpoint of the stream fails from some point on *)
 | FCancel (recv_side at_start : bool)  (* the caller's context of Send / Receive is cancelled *)
+| FCancelStream (at_start : bool)      (* the stream's own context is cancelled: both endpoints fail *)
+| FCancelAll (at_start : bool)         (* one context shared by Send, Receive and the stream is cancelled *)
 | FWalkErr (k : nat)                   (* FS.Walk fails when it reaches entry k *)
 | FReadErr (h c : nat)                 (* Read of file h fails after c chunks *)
 | FOpenErr (h : nat)                   (* Open of file h fails *)
@@ -103,8 +105,12 @@ Inductive fault :=
 
 Record scenario := {
   sc_fault : fault;
-  sc_gated : bool    (* the harness stream holds back REQ delivery until every request has been
+  sc_gated : bool;   (* the harness stream holds back REQ delivery until every request has been
                         sent and then blocks every DATA send until tear-down (large fan-out) *)
+  sc_stall : option nat;  (* with sc_hold: the receiver-side callbacks of this entry block until the
+                             same moment and then return normally (a slow diff) *)
+  sc_hold : bool     (* the fault is held back (its hook blocks / the cancellation or endpoint failure
+                        is postponed) until no goroutine of either call can move, then released *)
 }.
 
 Definition n_need (p : params) : nat :=
@@ -198,52 +204,94 @@ Definition safe_local (p : params) (st : state) (l : label) : bool :=
   | _ => false
   end.
 
-Definition env_fault_label (sc : scenario) : option label :=
-  match sc_fault sc with
-  | FBreak false false => Some LEnvBreakS
-  | FBreak true false => Some LEnvBreakR
-  | FCancel false false => Some LEnvCancelS
-  | FCancel true false => Some LEnvCancelR
-  | _ => None
+Definition env_fault_labels (f : fault) (at_start : bool) : list label :=
+  match f with
+  | FBreak false a => if Bool.eqb a at_start then [LEnvBreakS] else []
+  | FBreak true a => if Bool.eqb a at_start then [LEnvBreakR] else []
+  | FCancel false a => if Bool.eqb a at_start then [LEnvCancelS] else []
+  | FCancel true a => if Bool.eqb a at_start then [LEnvCancelR] else []
+  | FCancelStream a => if Bool.eqb a at_start then [LEnvTearDown] else []
+  | FCancelAll a => if Bool.eqb a at_start then [LEnvCancelS; LEnvCancelR; LEnvTearDown] else []
+  | _ => []
   end.
+
+(* the events of one environment fault happen together; those that are no longer possible
+   (already cancelled / failed) are skipped; None = none of them was possible *)
+Fixpoint apply_env (p : params) (st : state) (ls : list label) (any : bool) : option state :=
+  match ls with
+  | [] => if any then Some st else None
+  | l :: r => match step p st l with
+              | Some s => apply_env p s r true
+              | None => apply_env p st r any
+              end
+  end.
+Definition env_label_of (ls : list label) : label := match ls with l :: _ => l | [] => LEnvTearDown end.
 
 (* the harness tears the stream down when either call has returned an error, or on
    quiescence (no goroutine of either call can move); when Send returns it closes the
    sending direction (LEnvCloseSend: the peer sees EOF after draining).  A cancellation /
    endpoint failure "at operation k" happens inside a stream operation: here it may follow
    any step that changed one of the two stream directions (and, at_start, precede everything). *)
+(* the move that the stalled callback is part of *)
+Definition is_stalled (sc : scenario) (p : params) (st : state) (l : label) : bool :=
+  match sc_stall sc, l with
+  | Some i, LDiff =>
+      match dl_pc st with
+      | DL_Handle i' => Nat.eqb i i' && is_meta (kind_of p i)
+      | _ => false
+      end
+  | Some i, LWriter j =>
+      match nth_error (wrs st) j with
+      | Some w => match wr_pc w with WR_Start => Nat.eqb (wr_id w) i | _ => false end
+      | None => false
+      end
+  | _, _ => false
+  end.
+
+Definition is_fault_label (l : label) : bool :=
+  match l with
+  | LSWalkErr | LWorkerOpenErr _ | LWorkerReadErr _ | LDiffCbErr | LWriterCbErr _ => true
+  | _ => false
+  end.
+
 Definition succs (sc : scenario) (p : params) (st : state) : list (label * state) :=
-  let ss := flat_map (fun l => if allowed0 sc p st l
-                               then match step p st l with Some s => [(l, s)] | None => [] end
-                               else []) (all_labels st) in
+  let ss0 := flat_map (fun l => if allowed0 sc p st l
+                                then match step p st l with Some s => [(l, s)] | None => [] end
+                                else []) (all_labels st) in
+  (* the postponed cancellation / endpoint failure, while it can still happen *)
+  let els := env_fault_labels (sc_fault sc) false in
+  let has_env := match els with [] => false | _ => true end in
+  let env_now := match apply_env p st els false with Some s => [(env_label_of els, s)] | None => [] end in
+  let env_pending := match env_now with [] => false | _ => true end in
+  (* a stall lasts until the held fault is released: with a postponed cancellation / failure,
+     until that has happened *)
+  let stall_on := if has_env then env_pending else true in
+  let deferred ls := is_fault_label (fst ls) || (stall_on && is_stalled sc p st (fst ls)) in
+  let heldf := if sc_hold sc then filter deferred ss0 else [] in
+  let ss := if sc_hold sc then filter (fun ls => negb (deferred ls)) ss0 else ss0 in
   match find (fun ls => safe_local p st (fst ls)) ss with
   | Some ls => [ls]
   | None =>
     let quiet := match ss with [] => true | _ => false end in
-    let envs := match env_fault_label sc with
-                | None => []
-                | Some el =>
-                    flat_map (fun ls =>
-                      let s' := snd ls in
-                      if (length (buf_sr s') =? length (buf_sr st)) && (length (buf_rs s') =? length (buf_rs st))
-                      then []
-                      else match step p s' el with Some s'' => [(el, s'')] | None => [] end) ss
-                end in
-    ss ++ envs ++ (if returned_err st || quiet
-                   then match step p st LEnvTearDown with Some s => [(LEnvTearDown, s)] | None => [] end
-                   else [])
+    let envs := if negb has_env then []
+                else if sc_hold sc
+                then (if quiet then env_now else [])
+                else flat_map (fun ls =>
+                  let s' := snd ls in
+                  if (length (buf_sr s') =? length (buf_sr st)) && (length (buf_rs s') =? length (buf_rs st))
+                  then []
+                  else match apply_env p s' els false with Some s'' => [(env_label_of els, s'')] | None => [] end) ss in
+    let faults := if quiet && negb (sc_hold sc && env_pending) then heldf else [] in
+    let stuck := quiet && match faults, envs with [], [] => true | _, _ => false end in
+    ss ++ envs ++ faults ++
+    (if returned_err st || stuck
+     then match step p st LEnvTearDown with Some s => [(LEnvTearDown, s)] | None => [] end
+     else [])
   end.
 
 Definition start_state (sc : scenario) (p : params) : state :=
   let st := init p in
-  let ap l := match step p st l with Some s => s | None => st end in
-  match sc_fault sc with
-  | FBreak false true => ap LEnvBreakS
-  | FBreak true true => ap LEnvBreakR
-  | FCancel false true => ap LEnvCancelS
-  | FCancel true true => ap LEnvCancelR
-  | _ => st
-  end.
+  match apply_env p st (env_fault_labels (sc_fault sc) true) false with Some s => s | None => st end.
 
 (* ---------- outcome classes ---------- *)
 (* 3 * (Send: 0 not returned, 1 nil, 2 error) + (Receive: same);  +9 when the state is not
@@ -258,17 +306,19 @@ Record result := {
   res_states : nat;                   (* states expanded *)
   res_quiescent : nat;                (* non-final states in which only the tear-down was possible and no call had failed *)
   res_complete : bool;                (* false = out of fuel *)
-  res_hang : option (list label)      (* labels (reversed) leading to a terminal state that is not final *)
+  res_hang : option (list label);     (* labels (reversed) leading to a terminal state that is not final *)
+  res_quiet : option (list label)     (* labels (reversed) leading to the first quiescent state found: not final, no
+                                         call has failed, and only the tear-down is possible *)
 }.
 
 Fixpoint explore (fuel : nat) (sc : scenario) (p : params) (todo : list (state * list label))
                  (seen : PositiveSet.t) (outs : list nat) (nstates nquiet : nat)
-                 (hang : option (list label)) : result :=
+                 (hang qpath : option (list label)) : result :=
   match fuel with
-  | O => {| res_outcomes := outs; res_states := nstates; res_quiescent := nquiet; res_complete := false; res_hang := hang |}
+  | O => {| res_outcomes := outs; res_states := nstates; res_quiescent := nquiet; res_complete := false; res_hang := hang; res_quiet := qpath |}
   | S fuel' =>
     match todo with
-    | [] => {| res_outcomes := outs; res_states := nstates; res_quiescent := nquiet; res_complete := true; res_hang := hang |}
+    | [] => {| res_outcomes := outs; res_states := nstates; res_quiescent := nquiet; res_complete := true; res_hang := hang; res_quiet := qpath |}
     | (st, path) :: rest =>
       let nx := succs sc p st in
       match nx with
@@ -277,7 +327,7 @@ Fixpoint explore (fuel : nat) (sc : scenario) (p : params) (todo : list (state *
                        | Some _ => hang
                        | None => if final st then None else Some path
                        end in
-          explore fuel' sc p rest seen (add_nat (outcome_code st) outs) (S nstates) nquiet hang'
+          explore fuel' sc p rest seen (add_nat (outcome_code st) outs) (S nstates) nquiet hang' qpath
       | _ =>
           let quiet := match nx with [(LEnvTearDown, _)] => negb (returned_err st) && negb (final st) | _ => false end in
           let '(todo', seen') :=
@@ -288,13 +338,14 @@ Fixpoint explore (fuel : nat) (sc : scenario) (p : params) (todo : list (state *
                          else ((snd ls, fst ls :: path) :: td, PositiveSet.add k sn))
                       nx (rest, seen) in
           explore fuel' sc p todo' seen' outs (S nstates) (if quiet then S nquiet else nquiet) hang
+                  (match qpath with Some _ => qpath | None => if quiet then Some path else None end)
       end
     end
   end.
 
 Definition explore_scenario (fuel : nat) (sc : scenario) (p : params) : result :=
   let st := start_state sc p in
-  explore fuel sc p [(st, [])] (PositiveSet.add (state_key st) PositiveSet.empty) [] 0 0 None.
+  explore fuel sc p [(st, [])] (PositiveSet.add (state_key st) PositiveSet.empty) [] 0 0 None None.
 
 (* ---------- a deterministic scheduler ---------- *)
 (* always the first successor in label order; used for non-vacuity examples *)
@@ -319,7 +370,8 @@ Fixpoint sched_last (fuel : nat) (sc : scenario) (p : params) (st : state) : sta
     end
   end.
 
-Definition no_fault : scenario := {| sc_fault := FNone; sc_gated := false |}.
+Definition no_fault : scenario := {| sc_fault := FNone; sc_gated := false; sc_stall := None; sc_hold := false |}.
+Definition mk_scenario (f : fault) (gated : bool) : scenario := {| sc_fault := f; sc_gated := gated; sc_stall := None; sc_hold := false |}.
 
 (* ---------- what a sequential receiver computes: the outcome of a complete fault-free run ---------- *)
 Fixpoint need_ids_from (i : nat) (l : list entry) : list nat :=
